@@ -32,8 +32,11 @@ class CutTap:
         self.hits = 0
         tap = self
 
-        def remove_cutout(coordinates, boundaries, remove_inside=True, keep_contour=True, on_edge_tolerance=0.01):
-            out = tap.orig(coordinates, boundaries, remove_inside=remove_inside, keep_contour=keep_contour, on_edge_tolerance=on_edge_tolerance)
+        def remove_cutout(coordinates, boundaries, *a_, **kw_):
+            out = tap.orig(coordinates, boundaries, *a_, **kw_)
+            remove_inside = kw_.get("remove_inside", a_[0] if len(a_) > 0 else True)
+            keep_contour = kw_.get("keep_contour", a_[1] if len(a_) > 1 else True)
+            on_edge_tolerance = kw_.get("on_edge_tolerance", a_[2] if len(a_) > 2 else 0.01)
             tap.hits += 1
             tap.calls.append({"in": list(coordinates), "boundaries": boundaries, "remove_inside": remove_inside, "keep_contour": keep_contour,
                               "tol": on_edge_tolerance, "out": list(out)})
